@@ -1,6 +1,7 @@
 package main
 
 import (
+	"crypto/ed25519"
 	"strconv"
 
 	"golang.org/x/crypto/nacl/secretbox"
@@ -84,6 +85,29 @@ func insiderForgeEnc(r *SplitMix, p encPair) ([]byte, string) {
 		}
 		pk = append(pk, q)
 	}
+	shapeAuths := func(al []*mpNode, victimIdx, shape int) []*mpNode {
+		switch shape {
+		case 1:
+			return nil
+		case 2:
+			return al[:victimIdx]
+		case 3:
+			al[victimIdx] = nBin(nil)
+		case 4:
+			al[victimIdx] = nNil()
+		case 5:
+			al[victimIdx] = nBin(al[victimIdx].Bytes[:31])
+		}
+		return al
+	}
+	victimIdx := 0
+	for i := range o.rcptIDs {
+		if i != o.rcptIndex {
+			victimIdx = i
+			break
+		}
+	}
+	shape := 0
 	build := func(n int, chunk []byte, final bool, victimAuth []byte) []byte {
 		nonce := idxNonce("saltpack_ploadsb", uint64(n))
 		ct := secretbox.Seal(nil, chunk, nonce, k32(o.payloadKey))
@@ -108,20 +132,49 @@ func insiderForgeEnc(r *SplitMix, p encPair) ([]byte, string) {
 				al = append(al, nBin(hmac32(myMac, ph))) // the insider's tag in every slot
 			}
 		}
+		al = shapeAuths(al, victimIdx, shape)
 		if major == 1 {
 			return mpEnc(nArr(&mpNode{Kind: mpArr, Arr: al}, nBin(ct)))
 		}
 		return mpEnc(nArr(nBool(final), &mpNode{Kind: mpArr, Arr: al}, nBin(ct)))
 	}
-	victimIdx := 0
-	for i, id := range o.rcptIDs {
-		_ = id
-		if i != o.rcptIndex {
-			victimIdx = i
-			break
+	shapeNames := []string{"", "/auths-empty", "/auths-cut-before-victim", "/victim-auth-empty", "/victim-auth-nil", "/victim-auth-31"}
+	switch r.Intn(7) {
+	case 5: // packets of every shape: empty/genuine/new chunks, either final flag, every authenticator-list shape
+		shape = r.Intn(6)
+		L := 1 + r.Intn(3)
+		out := [][]byte{objs[0]}
+		for n := 0; n < L; n++ {
+			var ch []byte
+			switch r.Intn(4) {
+			case 0:
+			case 1:
+				ch = p.msgA
+			case 2:
+				ch = append([]byte{byte(r.Next())}, p.msgA...)
+			default:
+				ch = r.Bytes(1 + r.Intn(8))
+			}
+			final := n == L-1
+			if r.Intn(4) == 0 {
+				final = !final
+			}
+			var va []byte
+			if r.Intn(2) == 0 {
+				va = pk[r.Intn(len(pk))].auths[victimIdx]
+			}
+			out = append(out, build(n, ch, final, va))
 		}
-	}
-	switch r.Intn(5) {
+		return joinObjects(out), "insider-packet-shapes" + shapeNames[shape]
+	case 6: // whole new message naming the honest sender with a shaped authenticator list
+		shape = 1 + r.Intn(5)
+		f := &refEnc{format: "saltpack", major: major, minor: 0, mode: 0, senderSk: p.insiderSk, ephSk: r.Bytes(32), payloadKey: r.Bytes(32),
+			forgeSenderPk: o.senderPk, chunks: [][]byte{[]byte("I am the honest sender, honestly")},
+			authShape: func(al []*mpNode) []*mpNode { return shapeAuths(al, victimIdx, shape) }}
+		for i, sk := range p.rsk {
+			f.rcpts = append(f.rcpts, refRcpt{pk: boxPk(sk), hide: p.hide[i]})
+		}
+		return f.seal(), "outsider-new-message-naming-sender" + shapeNames[shape]
 	case 0: // rewrite the first chunk, keep the victim's stale authenticator
 		ch := append([]byte("forged!"), r.Bytes(5)...)
 		out := append([][]byte{objs[0]}, build(0, ch, pk[0].final && major == 2, pk[0].auths[victimIdx]))
@@ -260,7 +313,40 @@ func insiderForgeSc(r *SplitMix, p scPair) ([]byte, string) {
 		ct := secretbox.Seal(nil, append(append([]byte{}, sig...), chunk...), hashNonce(hh, final, n), k32(o.payloadKey))
 		return mpEnc(nArr(nBin(ct), nBool(final)))
 	}
-	switch r.Intn(5) {
+	switch r.Intn(7) {
+	case 5, 6: // packets of every shape: empty/genuine/new chunks, either final flag, genuine/zero/random/foreign signatures
+		L := 1 + r.Intn(3)
+		out := [][]byte{objs[0]}
+		own := ed25519.NewKeyFromSeed(r.Bytes(32))
+		for n := 0; n < L; n++ {
+			var ch []byte
+			switch r.Intn(4) {
+			case 0:
+			case 1:
+				ch = pk[0].chunk
+			case 2:
+				ch = append([]byte{byte(r.Next())}, pk[0].chunk...)
+			default:
+				ch = r.Bytes(1 + r.Intn(8))
+			}
+			final := n == L-1
+			if r.Intn(4) == 0 {
+				final = !final
+			}
+			var sig []byte
+			switch r.Intn(4) {
+			case 0:
+				sig = pk[r.Intn(len(pk))].sig
+			case 1:
+				sig = make([]byte, 64)
+			case 2:
+				sig = r.Bytes(64)
+			default:
+				sig = ed25519.Sign(own, scSigInput(hh, hashNonce(hh, final, uint64(n)), final, ch))
+			}
+			out = append(out, seal(uint64(n), final, sig, ch))
+		}
+		return joinObjects(out), "insider-packet-shapes"
 	case 0: // modified plaintext, genuine signature
 		ch := append([]byte("forged"), pk[0].chunk...)
 		out := append([][]byte{objs[0]}, seal(0, pk[0].final, pk[0].sig, ch))
